@@ -500,3 +500,18 @@ Proof.
     + left. eapply (Below _ (s_cc (d_of b)) Mc); [|exact He].
       eapply incl_tran; [apply flat_map_paint_mentions|apply incl_sort_filter].
 Qed.
+
+Lemma grid_context_own_background b :
+  (knd (binfo b) = KGrid \/ knd (binfo b) = KInlineGrid) ->
+  let c := from_box b in
+  ctx_own_bg c = [EPaint (bid (binfo b)) LBg; EPaint (bid (binfo b)) LBorder] /\
+  ctx_inner c = ctx_own_bg c ++ EOpen (bid (binfo b)) BInner :: ctx_clip c ++ ctx_body c ++
+                EClose (bid (binfo b)) BInner :: ctx_outlines c.
+Proof.
+  intros K c.
+  assert (Hi : pinfo c = binfo b) by apply pinfo_from_box.
+  assert (Hid : pid c = bid (binfo b)) by (unfold pid; now rewrite Hi).
+  split.
+  - unfold ctx_own_bg. rewrite Hi, Hid. destruct K as [-> | ->]; reflexivity.
+  - unfold ctx_inner. now rewrite Hid.
+Qed.
